@@ -40,6 +40,56 @@ def ticks(x):
     return int(round(x * TPS))
 
 
+class _StableTimer(asyncio.TimerHandle):
+    """Timers due at the same virtual instant fire in the order in which they were scheduled."""
+
+    __slots__ = ("_seq",)
+
+    def __init__(self, when, seq, callback, args, loop, context=None):
+        super().__init__(when, callback, args, loop, context)
+        self._seq = seq
+
+    def _key(self):
+        return (self._when, self._seq)
+
+    def __lt__(self, other):
+        return self._key() < other._key()
+
+    def __le__(self, other):
+        return self._key() <= other._key()
+
+    def __gt__(self, other):
+        return self._key() > other._key()
+
+    def __ge__(self, other):
+        return self._key() >= other._key()
+
+    def __eq__(self, other):
+        return self is other
+
+    __hash__ = asyncio.TimerHandle.__hash__
+
+
+class StableVirtualLoop(VirtualLoop):
+    """heapq is not stable: with plain TimerHandles the order of two timers of ONE client that are due at the same virtual instant
+    depends on what else is in the heap, i.e. on the other clients.  Exact ties are an artefact of virtual time; breaking them by
+    scheduling order makes the relative order of a client's own callbacks independent of the presence of other clients."""
+
+    def __init__(self, clock):
+        super().__init__(clock)
+        self._timer_seq = 0
+
+    def call_at(self, when, callback, *args, context=None):
+        import heapq
+
+        self._check_closed()
+        self._timer_seq += 1
+        timer = _StableTimer(when, self._timer_seq, callback, args, self, context)
+        heapq.heappush(self._scheduled, timer)
+        timer._scheduled = True  # pylint: disable=protected-access
+        return timer
+
+
 class CodeRaised(Exception):
     """The code under test raised where the usage discipline does not allow for it."""
 
@@ -148,6 +198,7 @@ class Recorder:
         return ev
 
     def sample(self, t, n, rs, st, ok, deps):
+        # solo / solodeps: filled in by the driver for requests of cases with several clients (same client executed alone)
         self.events.append(
             {
                 "a": "Sample",
@@ -165,6 +216,8 @@ class Recorder:
                 "st": st,
                 "ok": bool(ok),
                 "deps": deps,
+                "solo": [rs, st],
+                "solodeps": [list(d) for d in deps],
             }
         )
 
@@ -428,7 +481,7 @@ def run_script(script):
                 rec.crash = "%s: %s" % (type(ex).__name__, ex)
             raise
 
-    loop = VirtualLoop(clock)
+    loop = StableVirtualLoop(clock)
     loop.set_exception_handler(lambda lp, c: None)
     loop.set_task_factory(rec.factory)
     with clock:
@@ -643,7 +696,7 @@ def run_composite(case):
     rec = Recorder(context.RequestContextHolder.request_context, clock)
     FakeEs = make_fake_es_class()
     crunner = _composite_runner()
-    loop = VirtualLoop(clock)
+    loop = StableVirtualLoop(clock)
     loop.set_exception_handler(lambda lp, c: None)
     loop.set_task_factory(rec.factory)
     nclients = len(case["clients"])
@@ -698,7 +751,15 @@ def run_composite(case):
                 deps = []
                 for d in s._dependent_timing or []:  # pylint: disable=protected-access
                     tm = d["dependent_timing"]
-                    deps.append([name_ctx.get(tm.get("operation"), 0), ticks(tm["request_start"]), ticks(tm["request_end"]), ticks(tm["service_time"])])
+                    deps.append(
+                        [
+                            name_ctx.get(tm.get("operation"), 0),
+                            ticks(tm["request_start"]),
+                            ticks(tm["request_end"]),
+                            ticks(tm["service_time"]),
+                            ticks(tm["absolute_time"] - VirtualClock.EPOCH),
+                        ]
+                    )
                 rec.sample(root, n, ticks(s.request_start), ticks(s.service_time), bool((s.request_meta_data or {}).get("success", True)), deps)
             events = list(rec.events)
         finally:
@@ -749,6 +810,9 @@ def composite_from_script(script, rnd):
         st.apply(tuple(step))
     clients = []
     nm = [0]
+    # mostly no connection limit (the instants of the scenario are reproduced exactly); sometimes one small limit for every request
+    # of every client: streams then queue for the connections of THEIR client
+    limit = rnd.choice([0, 0, 0, 1, 2])
 
     def name():
         nm[0] += 1
@@ -793,7 +857,7 @@ def composite_from_script(script, rnd):
                 streams.append({"stream": ops})
             if len(streams) > 2 and rnd.random() < 0.5:
                 streams = [{"stream": streams[:2]}] + streams[2:]
-            iters.append({"at": 0, "max_conn": 0, "requests": streams})
+            iters.append({"at": 0, "max_conn": limit, "requests": streams})
             t0 = end_all
         if iters:
             clients.append({"iters": iters})
@@ -848,6 +912,9 @@ def random_composite(rnd, max_clients=3):
                 acc.append((it, top))
 
     clients = []
+    # half of the cases: one small connection limit for all requests of all clients (the limit is reached, several clients use the
+    # same value at the same time); otherwise a limit per request
+    common = rnd.choice([None, None, 1, 2])
     for _ in range(rnd.randint(1, max_clients)):
         iters = []
         at = 0
@@ -863,7 +930,7 @@ def random_composite(rnd, max_clients=3):
                 pick = rnd.choice(direct) if direct and rnd.random() < 0.7 else (rnd.choice(cand) if cand else None)
                 if pick:
                     pick[0]["fail"] = rnd.choice(["timeout", "api400", "api429"])
-            iters.append({"at": at, "max_conn": rnd.choice([0, 0, 1, 2, 3]), "requests": requests})
+            iters.append({"at": at, "max_conn": common if common else rnd.choice([0, 0, 1, 2, 3]), "requests": requests})
             at = 0 if rnd.random() < 0.5 else at + rnd.choice([3, 10, 25])
         clients.append({"iters": iters})
     return {"kind": "composite", "clients": clients}
